@@ -57,6 +57,11 @@ func verifyFunc(prog *Program, cs *ContractSet, full string, c *Contract, kfs []
 			res.Err = fmt.Sprintf("function %s has no body", full)
 			return
 		}
+		x.topFn = fn
+		x.abstract = map[string]bool{}
+		for _, n := range c.AbstractCalls {
+			x.abstract[n] = true
+		}
 		x.verifyBody(fn, c, res)
 	}
 	res.Obls = x.obls
